@@ -46,7 +46,12 @@ VARIABLES fileLen,  \* length of the input
 vars == <<fileLen, pos, ends, phase, curLen, nops, status, last, over>>
 
 \* lim: the innermost limit in force when the operation was issued
-Op(k, len, p0, p1, ok, lim) == [k |-> k, len |-> len, p0 |-> p0, p1 |-> p1, ok |-> ok, lim |-> lim]
+\* alloc: bytes of memory reserved for the operation before its data was read
+Op(k, len, p0, p1, ok, lim) == [k |-> k, len |-> len, p0 |-> p0, p1 |-> p1, ok |-> ok, lim |-> lim, alloc |-> 0]
+OpA(k, len, p0, p1, ok, lim, a) == [k |-> k, len |-> len, p0 |-> p0, p1 |-> p1, ok |-> ok, lim |-> lim, alloc |-> a]
+\* read_bytes allocates up to Unchecked bytes without verifying that they exist
+\* (MAX_UNCHECKED_ALLOC = 2^20 in the code)
+Unchecked == 2
 NoOp == Op("none", 0, 0, 0, TRUE, 0)
 Min(a, b) == IF a < b THEN a ELSE b
 
@@ -152,9 +157,10 @@ ReadBytes ==
   /\ IF ~FieldFits THEN Refuse
      ELSE IF InFile(curLen)
      THEN /\ pos' = pos + curLen /\ nops' = nops + 1 /\ phase' = "tag"
-          /\ last' = Op("bytes", curLen, pos, pos + curLen, TRUE, Top)
+          /\ last' = OpA("bytes", curLen, pos, pos + curLen, TRUE, Top, curLen)
           /\ UNCHANGED <<fileLen, ends, curLen, status>>
-     ELSE Fail(Op("bytes", curLen, pos, pos, FALSE, Top))   \* pinned tree: after vec![0; len]
+     \* pinned tree: vec![0; len] first; current code: verifies lengths > Unchecked first
+     ELSE Fail(OpA("bytes", curLen, pos, pos, FALSE, Top, IF Wrapping \/ curLen <= Unchecked THEN curLen ELSE 0))
 
 \* Field::read_message / packed repeated fields: a sub-limit of `len` bytes
 Enter(k, nextPhase) ==
@@ -200,6 +206,9 @@ InLimit == last.ok =>
              /\ (last.k = "varint" => last.p1 - last.lim < MaxVar)
              /\ (last.k \in {"fixed", "skip", "bytes"} => last.p1 <= last.lim)
              /\ (last.k \in {"msg", "packed"} => last.p0 + last.len <= last.lim)
+\* memory reserved before reading a field is bounded by the bytes that remain
+\* in the input (plus the fixed unchecked allowance), not by the declared length
+BoundedAlloc == last.alloc <= (IF last.p0 <= fileLen THEN fileLen - last.p0 ELSE 0) + Unchecked
 \* the state the varint model makes reachable (TLC must find it: see OverrunReachable)
 Overrun == pos > Top
 NoOverrun == ~Overrun
@@ -212,6 +221,7 @@ Done == status \in {"ok", "err"}
 \* explored up to one operation beyond the bound (the behaviour may be infinite)
 Bounded == nops <= OpBound(MaxFile) + 1
 Breaks == \/ last.p1 < last.p0
+          \/ ~BoundedAlloc
           \/ (last.k \in {"skip", "bytes", "msg", "packed"} /\ last.p0 + last.len > fileLen)
 Candidate ==
   LET s == last.p0 + last.len IN
